@@ -7,8 +7,8 @@ theorem opOk_fixed (op : AaOp) : OpOk Rule.fixed op := by
 
 /-- One step of the fixed tree never wraps the credit, whatever the state. -/
 theorem uf_step (s : PathSt) (op : AaOp) (h : s.aa.underflow = false) :
-    (Path.step s op).aa.underflow = false := by
-  unfold Path.step
+    (Path.stepRepaired s op).aa.underflow = false := by
+  unfold Path.stepRepaired
   cases op with
   | rcvd n =>
     simp only [Path.stepR, onRcvd_eq]
@@ -74,8 +74,8 @@ theorem granted_step (r : Rule) (s : PathSt) (op : AaOp) (h : s.aa.state = .gran
 
 /-- Once aborted: nothing is sent any more (fixed tree), state frozen. -/
 theorem aborted_step (s : PathSt) (op : AaOp) (h : s.aa.state = .aborted) :
-    (Path.step s op).aa.state = .aborted ∧ (Path.step s op).sentTotal = s.sentTotal := by
-  unfold Path.step
+    (Path.stepRepaired s op).aa.state = .aborted ∧ (Path.stepRepaired s op).sentTotal = s.sentTotal := by
+  unfold Path.stepRepaired
   cases op with
   | rcvd n => simp [Path.stepR, onRcvd_eq, h]
   | grant => simp [Path.stepR, grant_eq, h]
